@@ -97,8 +97,18 @@ def check_fsolve(case, seed):
     jac = lambda x: csc_array(np.atleast_2d(jacd(x)))
     fails, outcomes, evals = [], set(), 0
     max_err_success = 0.0
-    for si, x0 in enumerate(_starts(n, seed)):
+    starts = list(enumerate(_starts(n, seed)))
+    if name in ("lin1", "lin1e4"):
+        # warm starts whose initial scaled error is 1.5 (> 1: not converged, although 1.5 / sqrt(n) < 1 for n >= 3): the test applied
+        # to the initial guess must be the same as the one applied to the iterates (seeded C23-h)
+        A_ = _lin_matrix(n, {"lin1": 1.0, "lin1e4": 1e4}[name])
+        root = 0.3 * np.arange(1, n + 1, dtype=float)
+        for atol_w in TOLS:
+            starts.append((f"warm{atol_w:g}", root + np.linalg.solve(A_, 1.5 * atol_w * (-1.0) ** np.arange(n))))
+    for si, x0 in starts:
         for atol, rtol, mi, mode in itertools.product(TOLS, TOLS, MAXIT, FS_MODES):
+            if isinstance(si, str) and (si != f"warm{atol:g}" or rtol > 1e-8):
+                continue
             if mode == "cs" and name == "rosen" and n > 1:
                 continue  # scipy's rosen_der is not complex-safe
             kw = dict(newton_atol=atol, newton_rtol=rtol, newton_max_iter=mi)
@@ -264,6 +274,13 @@ def _afp_functions():
         "trig": (lambda x: np.array([np.sin(x[0]) * np.cos(x[1]), np.exp(0.5 * x[2]), x[0] * x[2]]),
                  lambda x: np.array([[np.cos(x[0]) * np.cos(x[1]), -np.sin(x[0]) * np.sin(x[1]), 0.0], [0, 0, 0.5 * np.exp(0.5 * x[2])], [x[2], 0, x[0]]]),
                  np.array([0.4, 1.1, -0.6])),
+        # bounded smooth function at LARGE arguments: the step actually taken, fl(x + eps) - x, differs from eps by up to ulp(x)/2;
+        # dividing by the nominal step instead costs ulp(x)/(2 eps) relative accuracy (seeded C22-h)
+        # (every large argument enters the elementary functions on its own: a sum of two large arguments inside f would round the step away)
+        "trig_large": (lambda x: np.array([np.sin(x[0]) * np.cos(x[1]), np.cos(x[2]), np.sin(x[2]) * np.sin(x[0])]),
+                       lambda x: np.array([[np.cos(x[0]) * np.cos(x[1]), -np.sin(x[0]) * np.sin(x[1]), 0.0], [0, 0, -np.sin(x[2])],
+                                           [np.sin(x[2]) * np.cos(x[0]), 0, np.cos(x[2]) * np.sin(x[0])]]),
+                       np.array([1.0e4 + 0.3, -2.5e3 + 0.7, 7.1e3 + 0.1])),
         "scalar_arg": (lambda x: np.array([x[0] ** 2, np.sin(x[0])]), lambda x: np.array([2 * x[0], np.cos(x[0])]), np.array([0.9])),
         # functions whose result shares memory with their argument (cardillo's own PointMass.q_dot returns u)
         "identity_alias": (lambda x: x, lambda x: np.eye(3), np.array([0.3, -0.8, 1.2])),
